@@ -132,6 +132,16 @@ fn api() -> Option<&'static Api> {
     .as_ref()
 }
 
+/// Restarts the deterministic byte stream behind libc `getrandom` (first half of the preload
+/// library): a thread started afterwards draws the same std `RandomState` keys every time.
+pub fn reseed_hash_stream(seed: u64) {
+    let p = sym("verif_reseed");
+    if !p.is_null() {
+        let f = unsafe { std::mem::transmute::<*mut libc::c_void, unsafe extern "C" fn(u64)>(p) };
+        unsafe { f(seed) };
+    }
+}
+
 pub fn available() -> bool {
     api().is_some()
 }
